@@ -107,6 +107,30 @@ def run(ctx, res):
             if Lark(w['grammar'], parser='earley', lexer=w['lexer'], ambiguity='forest').parse(w['text']).is_ambiguous:
                 res.known_hits.append(('F20', '%s: %r on %r has one derivation, root.is_ambiguous is True' % (f['what'], w['grammar'], w['text'])))
     jobs, outs = forestlib.forest_stream(ctx, 20, {'c20'}, 3000, 25000, prio=True)
+    # ---- soundness certificate: the exported SPPF of every real forest is checked by the verified local checker ForestCert.checkForest
+    # (theorem certified_forest_encodes_only_parses: a certified forest encodes only parses, however many trees it holds, cyclic or not)
+    if ctx['driver_ok']:
+        from common import run_driver_parallel
+        ccases, cwhere = [], []
+        for ji, (st, rec) in enumerate(outs):
+            if st != 'ok':
+                continue
+            for run_ in rec.get('runs', []):
+                if run_.get('cert') is not None:
+                    ccases.append({k: v for k, v in run_['cert'].items() if k != 'root'}); cwhere.append((rec['grammar'], run_))
+                elif run_.get('cert_export_error'):
+                    res.count('forest_certificate_not_exported')
+        for (g_, run_), m in zip(cwhere, run_driver_parallel(ccases, timeout=900)):
+            if 'error' in m:
+                raise InfraError('driver forest_cert: %s' % m['error'])
+            res.count('forests_certified_sound' if m['ok'] else 'forests_not_certified'); res.count('certified_forest_nodes', len(run_['cert']['nodes']))
+            if not m['ok']:
+                c = run_['cert']; k, i = m['bad'][0]
+                res.corr_break('the real forest fails the soundness certificate ForestCert.checkForest (theorem certified_forest_encodes_only_parses no longer applies to it)',
+                               {'grammar': g_, 'text': run_['text'], 'lexer': run_['lexer'], 'node [kind, a, b, start, end]': c['nodes'][k], 'family [rule, left, right]': c['fams'][k][i],
+                                'left_node': c['nodes'][c['fams'][k][i][1]] if c['fams'][k][i][1] is not None else None,
+                                'right_node': c['nodes'][c['fams'][k][i][2][1]] if c['fams'][k][i][2] and c['fams'][k][i][2][0] == 0 else None,
+                                'rule': c['rules'][c['fams'][k][i][0]], 'failing_families': len(m['bad'])})
     # ---- the walk itself: the Lean model of ForestVisitor.visit (ForestVisit.lean: total on every graph, a proper depth-first walk, single_visit enters
     # no node twice) run on the exported node graph must produce the event sequence the real visitor produced
     if ctx['driver_ok']:
